@@ -274,6 +274,28 @@ class ScriptTree(Bounded):
             return
         for name in TREES:
             yield {'tree': name}
+        if extra:
+            # thorough tier: random trees (depth <= 4, up to three children, `../leaf-sibling` references)
+            for t in range(20):
+                tree = {'': []}
+                frontier = ['']
+                for depth in range(rng.randint(1, 4)):
+                    nxt = []
+                    for d in frontier:
+                        kids = [rng.choice(('a', 'b', 'c d', 'e.f')) for _ in range(rng.randint(0, 3 if depth == 0 else 2))]
+                        for k in dict.fromkeys(kids):
+                            child = (d + '/' if d else '') + k
+                            tree[d].append(k)
+                            tree[child] = []
+                            nxt.append(child)
+                    frontier = nxt
+                for d in list(tree):
+                    sib = [o for o in tree if o and o != d and o.rsplit('/', 1)[0] == (d.rsplit('/', 1)[0] if '/' in d else '')
+                           and ('/' in o) == ('/' in d) and not tree[o] and d]
+                    if sib and rng.random() < 0.4 and d.count('/') == sib[0].count('/'):
+                        tree[d].append('../' + sib[0].rsplit('/', 1)[-1])
+                if len(tree) > 1:
+                    yield {'tree': 'random-%d' % t, 'spec': tree}
 
     @staticmethod
     def expected(tree, d, acc):
@@ -291,7 +313,7 @@ class ScriptTree(Bounded):
     def native_check(self, case, raw):
         if case == 'outputs':
             return self.check_outputs(case, raw)
-        tree = TREES[raw['tree']]
+        tree = raw.get('spec') or TREES[raw['tree']]
         fname = 'build.bfg' if case == 'build' else 'options.bfg'
         files = {}
         visits = []
